@@ -436,6 +436,16 @@ impl TriMesh {
             .iter_mut()
             .for_each(|pt| pt.coords.component_mul_assign(scale));
 
+        // NOTE: a scale with an odd number of negative factors mirrors the mesh: the winding given
+        //       by the index buffer then points inwards. An oriented mesh must keep outward
+        //       normals (its interior is defined by them), so flip the winding back.
+        #[cfg(feature = "dim3")]
+        if self.flags.contains(TriMeshFlags::ORIENTED)
+            && scale.iter().filter(|s| **s < 0.0).count() % 2 == 1
+        {
+            self.reverse();
+        }
+
         // NOTE: the pseudo-normals are angle-weighted sums of face normals: a non-uniform scale
         //       changes the angles and maps normals by the inverse-transpose, and a mirroring
         //       scale flips the orientation given by the index buffer. Recompute them so they
